@@ -204,9 +204,10 @@ static void op(long c, long, vh::Tok& t)
     }
     free(b);
   }
-  else if((!strcmp(t.v[0], "rt") && t.n >= 2) || (!strcmp(t.v[0], "rtinto") && t.n >= 3))
+  else if(((!strcmp(t.v[0], "rt") || !strcmp(t.v[0], "rtx")) && t.n >= 2) || (!strcmp(t.v[0], "rtinto") && t.n >= 3))
   {
-    // toString, then parse; rtinto: the target of parse already holds the tree <t.v[1]>
+    // toString, then parse; rtinto: the target of parse already holds the tree <t.v[1]>;
+    // rtx = rt for trees whose text is too long for the extracted model (the driver answers with wildcards in model mode)
     bool into = t.v[0][2] == 'i';
     char* cur = t.v[into ? 2 : 1];
     Variant v;
@@ -218,7 +219,7 @@ static void op(long c, long, vh::Tok& t)
     Variant w;
     if(into) { char* c0 = t.v[1]; build(c0, w); }
     bool ok = parser.parse(text, w);
-    printf("%d | ", ok && v == w ? 1 : 0);
+    printf("%d | ", ok && v == w && w == v ? 1 : 0);          // Variant::operator== as the library defines it, both ways round
     vh::puthex((const unsigned char*)(const char*)s, s.length());
     printf(" ");
     print_result(stdout, ok, parser, w);
